@@ -982,15 +982,39 @@ pub extern "C" fn set_errno(errno: c_int) {
     unsafe { errno_location().write(errno) }
 }
 
+/// Descriptors whose callers left them blocking and that hooked calls have forced into
+/// non-blocking mode, with the number of such calls in progress. A socket is routinely
+/// used by several callers at once (one coroutine parked in `recv`, another one sending):
+/// the flag alone cannot tell a later call what mode the caller chose.
+static FORCED_NON_BLOCKING: Lazy<DashMap<c_int, usize>> = Lazy::new(Default::default);
+
+/// Force the descriptor of a caller that left it blocking into non-blocking mode
+/// for the duration of a hooked call.
+///
 /// # Panics
 /// if set fails.
 pub extern "C" fn set_non_blocking(fd: c_int) {
+    let mut calls = FORCED_NON_BLOCKING.entry(fd).or_insert(0);
+    *calls += 1;
     assert!(set_non_blocking_flag(fd, true), "set_non_blocking failed !");
 }
 
+/// Leave a hooked call that used [`set_non_blocking`]; the last such call
+/// puts the descriptor back into blocking mode.
+///
 /// # Panics
 /// if set fails.
 pub extern "C" fn set_blocking(fd: c_int) {
+    if let dashmap::mapref::entry::Entry::Occupied(mut calls) = FORCED_NON_BLOCKING.entry(fd) {
+        if *calls.get() > 1 {
+            *calls.get_mut() -= 1;
+            return;
+        }
+        // still holding the entry: a call that enters now waits until the flag is back
+        assert!(set_non_blocking_flag(fd, false), "set_blocking failed !");
+        _ = calls.remove();
+        return;
+    }
     assert!(set_non_blocking_flag(fd, false), "set_blocking failed !");
 }
 
@@ -1012,9 +1036,11 @@ extern "C" fn set_non_blocking_flag(fd: c_int, on: bool) -> bool {
     }
 }
 
+/// Whether the caller left the descriptor in blocking mode: the flag says so, or
+/// a hooked call in progress has forced the descriptor non-blocking.
 #[must_use]
 pub extern "C" fn is_blocking(fd: c_int) -> bool {
-    !is_non_blocking(fd)
+    FORCED_NON_BLOCKING.contains_key(&fd) || !is_non_blocking(fd)
 }
 
 #[must_use]
